@@ -296,7 +296,7 @@ func (r *Runner) valKind(v []byte) (string, int8) {
 	return "garbage", -1
 }
 
-// src guesses where a wrong result came from (only a hint inside the signature).
+// src guesses where a wrong result came from (a hint for the message, not part of the signature).
 func (r *Runner) src(key int8, kind string, idx int8) string {
 	var c cell
 	switch kind {
@@ -362,12 +362,12 @@ func (r *Runner) checkGet(step int, o Op, e Expect, obs Obs) string {
 	if kind == "value" && e.Present {
 		got = "other-value"
 	}
-	sig := fmt.Sprintf("C09|%s|op=Get|scope=%s|got=%s", clause(e), e.Scope, got)
-	if !(e.Deleted && kind == "tombstone") {
-		sig += "|src=" + r.src(o.Key, kind, idx)
+	sig := fmt.Sprintf("C09|%s|op=Get|scope=%s|got=%s|layer=%s", clause(e), e.Scope, got, r.Cfg.Layer())
+	hint := ""
+	if h := r.src(o.Key, kind, idx); h == "discarded-session" || h == "dropped-block" {
+		hint = " (the returned value was last written by a " + h + ")"
 	}
-	sig += "|layer=" + r.Cfg.Layer()
-	r.mismatch(step, sig, fmt.Sprintf("%s returned %q (err=%v), the model says %s", r.A.OpString(o), obs.Val, obs.Err, r.expString(e)))
+	r.mismatch(step, sig, fmt.Sprintf("%s returned %q (err=%v), the model says %s%s", r.A.OpString(o), obs.Val, obs.Err, r.expString(e), hint))
 	return line + "  <-- MISMATCH " + sig
 }
 
